@@ -9,7 +9,7 @@ RULE = ("APIs: apis.conventional extended with a recursive tree (nested, mutuall
         "root methods, sub-package methods, both), chains of enclosing closure of depth 2 and 3 in both "
         "declaration orders (a top-level message reached only as the encloser of a nested type, whose field names a nested type of "
         "the next one), resource references (type / child_type, "
-        "message-level and file-level), a second service and a third file that vanish, LRO and paged RPCs, streaming RPCs; a "
+        "message-level and file-level; also on the metadata type of an LRO, in a sub-message of it and in a message shared by the request and the metadata), a second service and a third file that vanish, LRO and paged RPCs, streaming RPCs; a "
         "compute-style API with an extended-operation polling service, REST and gRPC+asyncio (also with a polling chain that loops); an API using its own "
         "dependency package, including dependency messages that carry resource references (type / child_type, down to depth 3) to "
         "resources whose messages are in the target package; the former DESIGN 9 no. 4 counterexample and the internal-polling one (corpus/C16, run first). Configurations: for each API subsets of RPC selectors (singletons, one "
@@ -141,6 +141,8 @@ def build_apis(ctx, n_random):
     rd = U.depref_api()
     out.append({"name": "depref", "req": rd, "transport": "grpc", "knobs": {"dep_package", "dep_resource_ref"}, "e2e": True, "invalid": False,
                 "first": [[U.target_package(rd) + ".Library.CheckOut"]]})
+    rl, hl = U.lro_metadata_ref_api()
+    out.append({"name": "lro-metadata-ref", "req": rl, "transport": "grpc", "knobs": {"lro", "lro_metadata_ref"}, "e2e": True, "invalid": False, "first": hl})
     rp, hp = U.prefix_services_api()
     out.append({"name": "prefix-services", "req": rp, "transport": "grpc", "knobs": {"prefix_service"}, "e2e": True, "invalid": False, "first": hp})
     # dedicated APIs built on the shared random generator: the first valid candidate of a fixed rng sequence; a candidate
